@@ -536,11 +536,12 @@ class Optimizer(Logger, Citable):
             return np.nan
 
         res = (mydata.ravel() - final_model.ravel()) / datastd.ravel()
-        res = np.nansum(res*res)
-        if res == 0:
-            res = np.nan
+        if not np.any(np.isfinite(res)):
+            # Nothing could be compared (e.g. the model is NaN everywhere):
+            # nansum would turn that into a perfect chi-squared of zero
+            return np.nan
 
-        return res
+        return np.nansum(res*res)
 
     def compute_fit(self):
         """
